@@ -17,13 +17,13 @@ func init() { register("C03", "exploration", runC03) }
 
 // samTag is a JSON-serialisable typed tag value.
 type samTag struct {
-	Name string   `json:"name"`
-	Type string   `json:"type"` // A i f Z H
-	A    int      `json:"a,omitempty"`
-	I    int      `json:"i,omitempty"`
-	F    string   `json:"f,omitempty"` // float written with strconv 'g' -1, or NaN/+Inf/-Inf/-0
-	Z    core.S   `json:"z,omitempty"`
-	H    []int    `json:"h,omitempty"`
+	Name string `json:"name"`
+	Type string `json:"type"` // A i f Z H
+	A    int    `json:"a,omitempty"`
+	I    int    `json:"i,omitempty"`
+	F    string `json:"f,omitempty"` // float written with strconv 'g' -1, or NaN/+Inf/-Inf/-0
+	Z    core.S `json:"z,omitempty"`
+	H    []int  `json:"h,omitempty"`
 }
 
 func (t samTag) value() any {
